@@ -14,24 +14,26 @@ import (
 	"time"
 )
 
-// SiteTable maps a ctx.Done() call site (function kind, source line) to a stable key
-// "<kind><ordinal>" where the ordinal is the rank of the line among the distinct Done() call-site
-// lines seen in that function. Absolute line numbers never leave this table, so edits elsewhere in
-// the file do not matter. The table is filled by a calibration run and then frozen.
+// SiteTable maps a call site of the context (ctx.Done() or ctx.Err(), function kind, source line) to a stable key
+// "<kind><ordinal>" where the ordinal is the rank of the line among the distinct call-site lines of that
+// function that were reached WHILE THE CONTEXT WAS LIVE during the calibration run - i.e. the places where the
+// code under test asks "has the context ended?" before going on. Absolute line numbers never leave this table,
+// and it does not matter whether the code asks through `select { case <-ctx.Done(): ... default: }` or through
+// `if ctx.Err() != nil`. Calls made only after the context ended (`return ctx.Err()`) are not park points and get "<kind>?".
 //
-// Expected on the current code: Q0 (queue loop top, before the blocking receive), Q1 (after
-// take+count), Q2 (before the blocking offer), W0 (worker loop top), W1 (before the worker's
-// blocking receive), P0 (PushTask entry), P1 (PushTask blocking select).
+// Expected on the current code: Q0 (queue loop top, before the blocking receive), Q1 (after take+count),
+// Q2 (before the blocking offer), W0 (worker loop top), W1 (before the worker's blocking receive),
+// P0 (PushTask entry), P1 (PushTask blocking select).
 type SiteTable struct {
 	mu     sync.Mutex
 	lines  map[byte][]int
 	frozen bool
-	drift  int // calls from lines not in the frozen table
+	drift  int // calls on a live context from lines not in the frozen table
 }
 
 func NewSiteTable() *SiteTable { return &SiteTable{lines: map[byte][]int{}} }
 
-func (st *SiteTable) key(kind byte, line int) string {
+func (st *SiteTable) key(kind byte, line int, live bool) string {
 	st.mu.Lock()
 	defer st.mu.Unlock()
 	ls := st.lines[kind]
@@ -39,8 +41,8 @@ func (st *SiteTable) key(kind byte, line int) string {
 	if i < len(ls) && ls[i] == line {
 		return string([]byte{kind, byte('0' + i)})
 	}
-	if st.frozen {
-		if kind < 'a' {
+	if st.frozen || !live {
+		if live {
 			st.drift++
 		}
 		return string([]byte{kind, '?'})
@@ -117,61 +119,6 @@ func (g *Gate) Deadline() (time.Time, bool) {
 }
 func (g *Gate) Value(any) any { return nil }
 
-// Err is intercepted like Done: the call site is identified (keys "q<k>", "w<k>", "p<k>": ordinal of
-// the line among the Err() call sites of startQueue / startWorker / PushTask) and the hook, if any,
-// runs BEFORE the answer is computed - so a scenario can let things happen between the moment the
-// code under test decides to ask and the answer it gets (e.g. start the task just pushed, then cancel).
-func (g *Gate) Err() error {
-	var pcs [1]uintptr
-	key := "x?"
-	if runtime.Callers(2, pcs[:]) == 1 {
-		fr, _ := runtime.CallersFrames(pcs[:]).Next()
-		if k := classify(fr.Function); k != 'X' {
-			key = g.st.key(k+('a'-'A'), fr.Line)
-		}
-	}
-	g.mu.Lock()
-	g.hits[key]++
-	hook := g.hook
-	g.mu.Unlock()
-	if hook != nil && key != "x?" {
-		hook(key)
-	}
-	return g.ErrNow()
-}
-
-// ErrNow is the harness's own view of the context state (no interception).
-func (g *Gate) ErrNow() error {
-	if g.inner != nil {
-		return g.inner.Err()
-	}
-	g.mu.Lock()
-	defer g.mu.Unlock()
-	return g.err
-}
-
-// TotalHits is the number of Done()/Err() calls made so far by the lane's own goroutines (startQueue / startWorker).
-func (g *Gate) LaneHits() int {
-	g.mu.Lock()
-	defer g.mu.Unlock()
-	n := 0
-	for k, v := range g.hits {
-		switch k[0] {
-		case 'Q', 'W', 'q', 'w':
-			n += v
-		}
-	}
-	return n
-}
-
-// SetHook installs a function called at the beginning of every Done() / Err() call made by the code
-// under test, with the site key, in the calling goroutine.
-func (g *Gate) SetHook(h func(key string)) {
-	g.mu.Lock()
-	g.hook = h
-	g.mu.Unlock()
-}
-
 func classify(fn string) byte {
 	switch {
 	case strings.Contains(fn, "startQueue"):
@@ -184,14 +131,14 @@ func classify(fn string) byte {
 	return 'X'
 }
 
-// Done records the call site, parks the caller if the site is armed, and returns the shared channel.
-func (g *Gate) Done() <-chan struct{} {
+// intercept identifies the caller of Done()/Err(), runs the hook, and parks the caller if the site is armed.
+func (g *Gate) intercept() {
 	var pcs [1]uintptr
 	key := "X?"
-	if runtime.Callers(2, pcs[:]) == 1 {
+	if runtime.Callers(3, pcs[:]) == 1 {
 		fr, _ := runtime.CallersFrames(pcs[:]).Next()
 		if k := classify(fr.Function); k != 'X' {
-			key = g.st.key(k, fr.Line)
+			key = g.st.key(k, fr.Line, g.ErrNow() == nil)
 		}
 	}
 	g.mu.Lock()
@@ -214,10 +161,54 @@ func (g *Gate) Done() <-chan struct{} {
 	if p != nil {
 		<-p.resume
 	}
+}
+
+// Done records the call site, parks the caller if the site is armed, and returns the shared channel.
+func (g *Gate) Done() <-chan struct{} {
+	g.intercept()
 	if g.inner != nil {
 		return g.inner.Done()
 	}
 	return g.done
+}
+
+// Err is intercepted exactly like Done (same site table, hook BEFORE the answer is computed, parking): code
+// written in the `if ctx.Err() != nil` style stays as controllable as code written with selects, and a scenario
+// can let things happen between the moment the code decides to ask and the answer it gets.
+func (g *Gate) Err() error {
+	g.intercept()
+	return g.ErrNow()
+}
+
+// ErrNow is the harness's own view of the context state (no interception).
+func (g *Gate) ErrNow() error {
+	if g.inner != nil {
+		return g.inner.Err()
+	}
+	g.mu.Lock()
+	defer g.mu.Unlock()
+	return g.err
+}
+
+// SetHook installs a function called at the beginning of every Done() / Err() call made by the code
+// under test, with the site key, in the calling goroutine.
+func (g *Gate) SetHook(h func(key string)) {
+	g.mu.Lock()
+	g.hook = h
+	g.mu.Unlock()
+}
+
+// LaneHits is the number of Done()/Err() calls made so far by the lane's own goroutines (startQueue / startWorker).
+func (g *Gate) LaneHits() int {
+	g.mu.Lock()
+	defer g.mu.Unlock()
+	n := 0
+	for k, v := range g.hits {
+		if k[0] == 'Q' || k[0] == 'W' {
+			n += v
+		}
+	}
+	return n
 }
 
 // Cancel ends the context with the given error (context.Canceled or context.DeadlineExceeded).
